@@ -279,6 +279,12 @@ PROPS["C20"] = dict(
           "every DESCRIBE/ANNOUNCE/SETUP/PLAY/RECORD handler sees exactly (decoded path, raw query) of the original URL; after the k-th SETUP "
           "the session's k-th media is the media the client asked for (pointer identity with the stream / announced description); every byte "
           "the client writes is tapped and no request line carries user-info. Non-trivial: URL with a query or an odd segment and >=2 medias. "
+          "(ctl) a scripted camera-like server announces 1..3 medias with one control-attribute style (relative, relative with a sub-path, "
+          "absolute, absolute naming another host, leading '?', leading '/'), with Content-Base ending in '/', not ending in '/', absent, given as "
+          "a path, or naming another path, optionally a session-level 'a=control:*', for generated paths and queries, with or without credentials "
+          "in the URL; a library client describes, sets every media up and plays: no request line carries the credentials, there is one SETUP per "
+          "media, all different, each ending with its media's control attribute and lying below the base URL (relative styles) or equal to it "
+          "apart from the authority, which is the connected server's (absolute styles). "
           "Distinct by case hash."),
     assumptions=[
         "domain per the property: non-empty decoded path not ending in '/', raw query not ending in '/'",
@@ -287,6 +293,7 @@ PROPS["C20"] = dict(
     jobs=lambda tier: [
         seeded("play", "e2e", "^TestC20Play$", 150 if tier == "quick" else 4000, 8 if tier == "quick" else 16, timeout=1800),
         seeded("record", "e2e", "^TestC20Record$", 150 if tier == "quick" else 4000, 8 if tier == "quick" else 16, timeout=1800),
+        seeded("ctl", "e2e", "^TestC20Ctl$", 400 if tier == "quick" else 6000, 4 if tier == "quick" else 8, timeout=1800),
     ],
 )
 
